@@ -30,6 +30,7 @@ def run(ctx):
     ctx.each(r05g, ctx, repo)
     ctx.each(flowalg.duration_rule, ctx, repo, "R05h")
     ctx.each(flowalg.flush_formula_rule, ctx, repo, "R05i")
+    ctx.each(discretise.snap_tolerance_rule, ctx, repo, "R05j", [("model", _row_count_helper(repo))])
 
 
 SITES = (("model", "TimedCompartment.preallocate"), ("model", "TimedLink.preallocate"))
@@ -249,6 +250,15 @@ def r05f(ctx, repo):
         ids = [i for r in resets for i in cfg.ids(r)]
         leak = cfg.find_path([ENTRY], [EXIT], avoid_ids=ids)
         ctx.check(bool(resets) and not leak, "R05f", fi, resets[0] if resets else fi.node, "cached outflow recomputed on every path", "%s can return without recomputing self._cached_outflow (%s): update() then subtracts the outflow of an earlier step from the next arrivals, so a cohort that enters an emptied compartment is lost instead of leaving through the timed outflow on time" % (q, cfg.describe_path(leak) if leak else "no reset"))
+
+
+def _row_count_helper(repo):
+    """name of the module-level function that TimedCompartment.preallocate calls to turn (duration, dt) into a number of rows"""
+    fi = repo.func("model", "TimedCompartment.preallocate")
+    for c in own_nodes(fi.node):
+        if isinstance(c, ast.Call) and ast.unparse(c.func) in ("np.empty", "np.zeros", "np.full") and c.args and isinstance(c.args[0], ast.Tuple) and c.args[0].elts and isinstance(c.args[0].elts[0], ast.Call) and isinstance(c.args[0].elts[0].func, ast.Name):
+            return c.args[0].elts[0].func.id
+    return "_keyring_size"
 
 
 def _init_of(repo, ci):
